@@ -1,6 +1,9 @@
 //! One module per property; `all()` is the registry used by the CLI and the fuzz targets.
 use crate::runner::PropDef;
 
+pub mod c01;
+pub mod c02;
+pub mod c03;
 pub mod c04;
 pub mod c05;
 pub mod c06;
@@ -8,6 +11,7 @@ pub mod c07;
 pub mod c08;
 pub mod c09;
 pub mod c10;
+pub mod c11;
 pub mod c12;
 pub mod c13;
 pub mod c14;
@@ -22,7 +26,7 @@ pub const TRUSTED: &[&str] = &[
 ];
 
 pub fn all() -> Vec<PropDef> {
-    vec![c04::def(), c05::def(), c06::def(), c07::def(), c08::def(), c09::def(), c10::def(), c12::def(), c13::def(), c14::def(), c15::def()]
+    vec![c01::def(), c02::def(), c03::def(), c04::def(), c05::def(), c06::def(), c07::def(), c08::def(), c09::def(), c10::def(), c11::def(), c12::def(), c13::def(), c14::def(), c15::def()]
 }
 
 pub fn find(id: &str) -> Option<PropDef> {
